@@ -55,7 +55,14 @@ var plans = map[string]*plan{
 		Rule:   "stream harness: input drawn from 9 pointer / look-alike classes (canonical, decoder-accepted variants, pointer+extra, padded to 1023/1024/1025, pointer prefix followed by KB..200KB, near-pointers, empty, two pointers) x a scripted reader delivering it in tape-chosen chunks (single, boundary at/around the end of the pointer-looking prefix and the 1024 sniff, fixed sizes 1..65517, random) x EOF delivered with or after the last bytes x working-tree file absent/same/shorter/longer/pointer. Every case is non-trivial; distinct = distinct choice trace.",
 		Real:   []string{"commands.clean / commands.smudge (via tagged export)", "lfs.GitFilter.Clean/Smudge, lfs.DecodeFrom, pointer codec", "tools.CopyWithCallback / Spool", "real object store on disk"},
 		Stub:   []string{"the byte source and sink (scripted chunked reader, in-memory writer)"},
-		Assume: []string{"'well-formed pointer' = accepted by lfs.DecodePointer as a whole and shorter than 1024 bytes", "zero-length reads without EOF are not generated"},
+		Assume: []string{"'well-formed pointer' = the harness's own reading of docs/spec.md (sim.RefPointer: shorter than 1024 bytes, version/ext/oid/size lines, documented leniencies); spellings the documents leave open are exempt", "zero-length reads without EOF are not generated"},
+		Extra: &plan{
+			ID: "C08", Engine: "B", Level: "exploration",
+			Stages: []stage{{"C08.git", 80, 2500}},
+			Rule:   "the clause about re-adding pointers, through Git: 1-4 files committed and pushed (optionally with a pointer extension in use), cloned with GIT_LFS_SKIP_SMUDGE=1, the pointer files touched and then handed back to Git by one of git add -A / add --renormalize / commit -a / stash / hash-object --path, with filter-process or the one-shot filters and with no, a size-preserving, a shrinking or a growing pointer extension configured in the clone. The blobs Git ends up with must be the committed pointer blobs and local storage must stay empty.",
+			Real:   realB, Stub: stubB,
+			Assume: []string{"fault-free server; only the clean side is judged here"},
+		},
 	},
 	"C01": {
 		ID: "C01", Engine: "A", Level: "exploration",
